@@ -53,7 +53,7 @@ type NB = num_bigint::BigInt;
 macro_rules! nb_harness {
     ($name:ident, $body:block) => {
         #[kani::proof]
-        #[kani::unwind(5)]
+        #[kani::unwind(34)]
         #[kani::stub(core::arch::x86_64::_addcarry_u64, stub_addcarry_u64)]
         #[kani::stub(core::arch::x86_64::_subborrow_u64, stub_subborrow_u64)]
         fn $name() $body
